@@ -516,6 +516,66 @@ def _early_return_style(src):
     return src[:a] + new + src[b + len("        else:\n            return False\n"):]
 
 
+def rename_locals(src, qualname):
+    """Source transformer: rename every local variable (not parameters, not attributes) of
+    one function/method by appending `_r`; the function is re-emitted with ast.unparse."""
+    import ast
+    import textwrap
+
+    if True:
+        tree = ast.parse(src)
+        cls_name, _, meth = qualname.rpartition('.')
+        target = None
+        for n in ast.walk(tree):
+            if isinstance(n, ast.ClassDef) and n.name == cls_name:
+                for m in n.body:
+                    if isinstance(m, ast.FunctionDef) and m.name == meth and not any(
+                            isinstance(d, ast.Attribute) and d.attr == 'setter'
+                            for d in m.decorator_list):
+                        target = m
+        if target is None:
+            raise ValueError('function not found')
+        params = {a.arg for a in target.args.args + target.args.kwonlyargs +
+                  target.args.posonlyargs}
+        if target.args.vararg:
+            params.add(target.args.vararg.arg)
+        if target.args.kwarg:
+            params.add(target.args.kwarg.arg)
+        assigned = set()
+        for n in ast.walk(target):
+            if isinstance(n, ast.Name) and isinstance(n.ctx, ast.Store):
+                assigned.add(n.id)
+        assigned -= params
+        lines = src.split('\n')
+        start = target.lineno - 1 - len(target.decorator_list)
+        end = target.end_lineno
+        indent = len(lines[target.lineno - 1]) - len(lines[target.lineno - 1].lstrip())
+
+        class R(ast.NodeTransformer):
+            def visit_Name(self, n):
+                if n.id in assigned:
+                    return ast.copy_location(ast.Name(id=n.id + '_r', ctx=n.ctx), n)
+                return n
+        new = R().visit(target)
+        ast.fix_missing_locations(new)
+        text = textwrap.indent(ast.unparse(new), ' ' * indent)
+        return '\n'.join(lines[:start] + [text] + lines[end:])
+
+
+_RENAME_TARGETS = [
+    (S, 'Sampler.add_bound'), (S, 'Sampler.add_samples'), (S, 'Sampler.sample_shell'),
+    (S, 'Sampler.run'), (S, 'Sampler.posterior'), (S, 'Sampler.evaluate_likelihood'),
+    (S, 'Sampler.update_shell_info'), (S, 'Sampler.write'), (S, 'Sampler.write_shell_update'),
+    (S, 'Sampler.shell_association'), (U, 'Union.split'), (U, 'Union.trim'),
+    (U, 'Union.sample'), (U, 'Union.read'), (N, 'NautilusBound.sample'),
+    (N, 'NautilusBound.contains'), (N, 'NautilusBound.compute'), (PS, 'PhaseShift.transform'),
+    (PR, 'Prior.add_parameter'), (PR, 'Prior.physical_to_dictionary'),
+    (NE, 'NeuralBound.contains'), (B, 'UnitCubeEllipsoidMixture.sample'),
+]
+
+BENIGN += [dict(id='rename-locals:' + q, file=f_, old='def ' + q.split('.')[1], new=None,
+                fn=('rename_locals', q), props=ALL.split()) for f_, q in _RENAME_TARGETS]
+
 BENIGN += [
     dict(id='with-statement', file=S, old="fstream = h5py.File(filepath_tmp, 'w')", new=None,
          fn=_with_statement, props=ALL.split()),
